@@ -39,8 +39,17 @@ def gen_cases(run):
         if not cfgs and rng.random() < 0.8:
             cfgs = H.gen_configs(rng, g, max_cfg=5)
         for c in cfgs:
-            if rng.random() < 0.3:
+            r = rng.random()
+            if r < 0.3:
                 c["rotating"] = True  # a shuffling side sampler: every pass yields its own order
+            elif r < 0.4:
+                c["side_kind"] = "tensor_views"  # indices are 0-dim views of one tensor the sampler keeps
+            elif r < 0.5:
+                # kappadata's own DistributedSampler on 2 replicas as side sampler: len() (this rank's share) != effective_length (dataset size)
+                c["side_kind"], c["rank"] = "kd_dist2", rng.randrange(2)
+                c["M"] = rng.choice([1, 2, 3, 5, 6, 9])
+                c["n"] = -(-c["M"] // 2)
+                c["batch_size"] = rng.choice([None, None, 1, 2, 3, c["n"], c["n"] + 2])
         spec = {"kind": "stream", "g": g, "budget": H.gen_budget(rng, g), "cfgs": cfgs, "seed": rng.randrange(10 ** 6)}
         if cfgs and rng.random() < 0.25:
             spec["pre_batch_size"] = rng.randint(1, g["N"])  # config objects shared with an earlier scheduler of another batch size
@@ -94,12 +103,19 @@ def run_case(run, spec):
         run.count("cases_with_reused_config_objects")
     if any(c.get("rotating") for c in cfgs):
         run.count("cases_with_reshuffling_side_samplers")
+    if any(c.get("side_kind") for c in cfgs):
+        run.count("cases_with_tensor_view_or_distributed_side_samplers")
     sampler, main, sides, events = built
     mdl = H.model(g, budget, cfgs, lambda j, e: H.rec_draw(g["M"], g["N"], spec["seed"], e))
     cap = len(mdl["events"]) + 3 * (g["B"] + sum(c["n"] for c in cfgs)) + 10
     ok, finished = call_real(run, lambda: H.consume(sampler, events, cap), what="iterating InterleavedSampler")
     if not ok:
         return
+    for k_, (c, sd) in enumerate(zip(cfgs, sides)):
+        if c.get("side_kind") == "tensor_views" and sd.t.tolist() != list(sd.order):
+            run.violation("side:sampler-state-modified", f"{_desc(spec)}: the index tensor kept by side sampler {k_} was {list(sd.order)} and is {sd.t.tolist()} after the run "
+                                                         f"(the scheduler wrote into the sampler's own storage)")
+            return
     kinds = tuple(sorted({"".join(k[8] for k in ("every_n_epochs", "every_n_updates", "every_n_samples") if c[k] is not None) for c in cfgs}))
     run.cover(kinds, min(len(cfgs), 4), bval == 0, bkind, any(c["batch_size"] for c in cfgs), g["drop_last"], g["N"] % g["B"] == 0)
 
